@@ -396,6 +396,26 @@ func corpus() []prog {
 			}
 		}, nil, false)
 	}
+	for _, interrupting := range []bool{true, false} {
+		interrupting := interrupting
+		add(fmt.Sprintf("four-late-tokens-boundary-%v", interrupting), func(g *drv.Graph) {
+			// as above, the node is a task with a boundary event; events arrive with the cancel
+			s, f, m, n, e := g.Add(drv.Start, "start"), g.Add(drv.AND, "F"), g.Add(drv.XOR, "M"), g.Add(drv.Task, "n1"), g.Add(drv.End, "end")
+			g.Link(s, f, nil)
+			for i := 1; i <= 4; i++ {
+				a := g.Add(drv.Task, fmt.Sprintf("a%d", i))
+				g.Link(f, a, nil)
+				g.Link(a, m, nil)
+			}
+			b := g.AddBoundary(n, "b1", interrupting, drv.EventDef{Kind: "signal", Ref: "E1"})
+			ex := g.Add(drv.End, "endx")
+			g.Link(m, n, nil)
+			g.Link(n, e, nil)
+			g.Link(b, ex, nil)
+		}, nil, false)
+		ps[len(ps)-1].flood = "E1"
+		withEvents(map[string]string{"n1": "E1"})
+	}
 	// the programs with a node that takes events, once more with six signals (of the references
 	// the corpus uses) handed to the instance right after the cancel is issued
 	for _, q := range ps {
